@@ -27,10 +27,27 @@ def _doc_tokens(node):
     return ['1', doc, str(node.body[0].end_lineno), str(node.body[0].lineno)]
 
 
+_IMPORTED = [frozenset()]
+
+
+def imported_names(tree):
+    """names bound by import statements anywhere in the module"""
+    out = set()
+    for node in ast.walk(tree):
+        if isinstance(node, ast.Import):
+            out.update(a.asname or a.name.split('.')[0] for a in node.names)
+        elif isinstance(node, ast.ImportFrom):
+            out.update(a.asname or a.name for a in node.names if a.name != '*')
+    return frozenset(out)
+
+
 def _deco_tokens(decos):
     out = [str(len(decos))]
     for d in decos:
-        if isinstance(d, ast.Name):
+        callee = d.func if isinstance(d, ast.Call) else d
+        if isinstance(callee, ast.Name) and callee.id in _IMPORTED[0] and callee.id not in ('property', 'staticmethod', 'classmethod'):
+            out += ['E', callee.id]     # a decorator that lives in another module
+        elif isinstance(d, ast.Name):
             out += ['N', d.id]
         elif isinstance(d, ast.Attribute):
             out += ['A', d.attr]
@@ -122,6 +139,7 @@ def _stmts(body, env, runs=True):
 def module_tokens(source, modname='mod'):
     """protocol field: `;`-joined tokens `doc tree`"""
     tree = ast.parse(source)
+    _IMPORTED[0] = imported_names(tree)
     env = {'__name__': modname, 'FLAG': False, 'range': range}
     toks = _doc_tokens(tree) + _stmts(tree.body, env) + ['E']
     return ';'.join(_tok(t) for t in toks)
